@@ -309,7 +309,11 @@ class Agent(dbus.service.Object):
         if conv.key in self._bindsocks:
             raise dbus.DBusException('Already listening')
 
-        sock = conv.make_local_socket()
+        # One packet socket for each interface: every further one would be
+        # handed its own copy of each received frame
+        sock = self._plain_sock.get(conv.key)
+        if sock is None:
+            sock = conv.make_local_socket()
         self.__logger.info('Listening on %s addr %s', conv.local_if, conv.local_address)
 
         # always receive src MAC and VLAN TPID data
@@ -326,7 +330,8 @@ class Agent(dbus.service.Object):
             sock.setsockopt(SOL_PACKET, PACKET_ADD_MEMBERSHIP, mreq)
 
         self._bindsocks[conv.key] = sock
-        self._recv_wait[sock] = glib.io_add_watch(sock, glib.IO_IN, self._sock_recvfrom)
+        if sock not in self._recv_wait:
+            self._recv_wait[sock] = glib.io_add_watch(sock, glib.IO_IN, self._sock_recvfrom)
 
     @dbus.service.method(DBUS_IFACE, in_signature='s')
     def listen_stop(self, ifname):
@@ -347,6 +352,9 @@ class Agent(dbus.service.Object):
         self.__logger.info('Un-listening on %s %s', conv.local_if, conv.local_address)
         if sock in self._recv_wait:
             glib.source_remove(self._recv_wait.pop(sock))
+        # nothing is sent through it any more either
+        for key in [key for (key, val) in self._plain_sock.items() if val is sock]:
+            del self._plain_sock[key]
         sock.close()
 
     def _sock_recvfrom(self, sock: socket.socket, *_args, **_kwargs) -> bool:
@@ -624,7 +632,13 @@ class Agent(dbus.service.Object):
         sock = self._plain_sock.get(conv.key)
         if sock is None:
             self.__logger.debug('New conversation seen %s', conv)
-            sock = conv.make_local_socket()
+            # Share the packet socket of the interface, a second one would be
+            # handed its own copy of each received frame
+            local_key = EthernetChannel(local_if=conv.local_if, local_address=conv.local_address).key
+            sock = self._bindsocks.get(local_key) or self._plain_sock.get(local_key)
+            if sock is None:
+                sock = conv.make_local_socket()
+                self._plain_sock[local_key] = sock
             self._plain_sock[conv.key] = sock
 
         # Listen for any return-path regardless
